@@ -35,6 +35,8 @@ type Op struct {
 	// handler script
 	HYield int
 	HSleep time.Duration
+	// HWaitClose: the handler waits for the close notification of its session before it answers (long poll)
+	HWaitClose bool
 	// CtxTimeout > 0: the message is sent with erpc.WithContext(a context with that deadline), generous enough
 	// never to expire in a healthy run; it arms the connection's write deadline for this message
 	CtxTimeout time.Duration
@@ -129,6 +131,11 @@ func enter(c inCtx, kind, tag, arg string) (*Env, *Op) {
 	}
 	if op.HSleep > 0 {
 		simrt.Sleep(op.HSleep)
+	}
+	if op.HWaitClose {
+		if s := erpc.VerifSessionOf(c.Session()); s != nil {
+			simrt.WaitClosed(s.CloseNotify())
+		}
 	}
 	return e, op
 }
